@@ -75,6 +75,10 @@ def describe(c):
 
 def run(ctx):
     rep, rng, sc = ctx.rep, ctx.rng, ctx.scratch
+    # what the OpenMP loops of the three Widrow-Hoff entry points of this build share between their threads
+    core.check_omp_sharing(ctx, "ndl_openmp", {"learn_inplace_binary_to_real", "learn_inplace_real_to_binary",
+                                               "learn_inplace_real_to_real"},
+                           ["C08_r2r_any_schedule", "C08_r2b_any_schedule", "C08_b2r_any_schedule"])
     cases = gen_cases(rng, 1800 if ctx.thorough else 120, ctx.thorough)
     jobs = []
     for c in cases:
